@@ -2265,6 +2265,12 @@ impl Generatable for GeneratorBuiltin
 				};
 				Ok(result)
 			}
+			GeneratorBuiltin::AbortAs { value_type } =>
+			{
+				GeneratorBuiltin::Abort.generate(llvm)?;
+				let value_type = value_type.generate(llvm)?;
+				Ok(unsafe { LLVMGetUndef(value_type) })
+			}
 			GeneratorBuiltin::Format { arguments } =>
 			{
 				generate_format(arguments, llvm)
